@@ -751,3 +751,6 @@ func vIDString(name string) string {
 	s := vString(name)
 	return fmt.Sprintf("_id%x", []byte(s))
 }
+
+func vEmptyStore() dsig.X509CertificateStore                 { return &dsig.MemoryX509CertificateStore{} }
+func vValidateCtxSince(k int, sp *SAMLServiceProvider) bool { return true }
